@@ -488,10 +488,16 @@ func (s Subtitles) WriteToWebVTT(o io.Writer) (err error) {
 	}
 	c = append(c, []byte("\n\n")...)
 
+	// Loop through styles in the order of their ids, map iteration order is random
+	var styleIDs []string
+	for id := range s.Styles {
+		styleIDs = append(styleIDs, id)
+	}
+	sort.Strings(styleIDs)
 	var style []string
-	for _, s := range s.Styles {
-		if s.InlineStyle != nil {
-			style = append(style, s.InlineStyle.WebVTTStyles...)
+	for _, id := range styleIDs {
+		if s.Styles[id].InlineStyle != nil {
+			style = append(style, s.Styles[id].InlineStyle.WebVTTStyles...)
 		}
 	}
 
